@@ -12,27 +12,32 @@ open Bpp.Text Bpp.Text.U
 
 /-! ## removeComments -/
 
-/-- **removeComments is safe and terminates** for any text and any pair of non-empty marks whose
-first characters differ (the three pairs used by the code: `#`/newline, `//`/newline, `/*`/`*/`):
-every round erases at least one character. -/
-theorem removeComments_safe (s b e : Str) (hs : StrOk s) (hb : b ≠ []) (he : e ≠ [])
-    (hne : b.head? ≠ e.head?) : safe (removeComments s b e) = true :=
-  rmCommentsLoop_safe b e hb he hne _ _ _ hs (by omega)
+/-- **removeComments is safe and terminates for any text and ANY pair of marks** (after the repair
+"fix: AttributesTools::removeComments never returned for marks that start with one another"): marks
+one of which starts with the other (an empty mark, twice the same mark) are refused with the
+library's exception; for all the others the end mark is found strictly after the place where the
+begin mark was found, so every round erases at least one character. -/
+theorem removeComments_safe (s b e : Str) (hs : StrOk s) : safe (removeComments s b e) = true :=
+  removeComments_safe_lem s b e hs
 
 example : removeComments "a=1 # c".toList "#".toList "\n".toList = .ok "a=1 ".toList := by decide
 example : removeComments "a=/*x*/1/*y*/2".toList "/*".toList "*/".toList = .ok "a=*/1*/2".toList := by
   decide
+example : removeComments "ab".toList "ab".toList "a".toList = .error .bpp := by decide
+example : removeComments "ab".toList [] "a".toList = .error .bpp := by decide
 
 /-- the result is never longer than the text -/
 theorem removeComments_alloc (s b e r : Str) (h : removeComments s b e = .ok r) :
     r.length ≤ s.length :=
-  rmCommentsLoop_alloc b e _ _ _ _ h
+  removeComments_alloc_lem s b e r h
 
-/-- without the hypothesis on the first characters the loop may not end: with `begin = end = "a"`
-the end mark is found where the begin mark is, nothing is erased, and the next round starts from the
-same place -/
-theorem removeComments_general_hangs :
-    removeComments "a".toList "a".toList "a".toList = .error .hang := by decide
+/-- **the code as found did not return** for such marks: with `begin = end = "a"` the end mark is
+found where the begin mark is, nothing is erased, and the next round starts from the same place;
+the same with an empty mark, or with `begin = "ab"`, `end = "a"` (first characters equal) -/
+theorem removeComments_old_hangs :
+    removeCommentsOld "a".toList "a".toList "a".toList = .error .hang ∧
+    removeCommentsOld "\n".toList [] "\n".toList = .error .hang ∧
+    removeCommentsOld "ab".toList "ab".toList "a".toList = .error .hang := by decide
 
 /-- the cleaning of one line (three `removeComments`, then `removeWhiteSpaces`) -/
 theorem cleanLine_safe (line : Str) (hs : StrOk line) : safe (cleanLine line) = true :=
